@@ -306,17 +306,17 @@ def first_tick(kind, has_last, first, slices, tolerate=()):
     LAST_DETAIL = {"kind": kind, "has_last_execution": has_last, "fired": fired, "errors": errs, "schedule": res["schedule"], "why": why}
     return why is None or why in tolerate
 
-def cron_tick_with_last___KIND__(first: int, k1: int, k2: int) -> bool:
+def cron_tick_with_last___KIND_____F__(first: int, k1: int, k2: int) -> bool:
     """
-    pre: 0 <= first <= 1 and 0 <= k1 <= 40 and 0 <= k2 <= 40
+    pre: __F__ <= first <= __F__ and 0 <= k1 <= 40 and 0 <= k2 <= 40
     post: _
     """
     with NoTracing():
         return first_tick(["mem", "sqlite"][__KIND__], True, first, [k1, k2])
 
-def first_tick_otherwise___KIND__(first: int, k1: int, k2: int) -> bool:
+def first_tick_otherwise___KIND_____F__(first: int, k1: int, k2: int) -> bool:
     """
-    pre: 0 <= first <= 1 and 0 <= k1 <= 40 and 0 <= k2 <= 40
+    pre: __F__ <= first <= __F__ and 0 <= k1 <= 40 and 0 <= k2 <= 40
     post: _
     """
     # the region of the listed finding, with exactly that outcome tolerated: nothing else may go wrong there
@@ -363,11 +363,15 @@ def run(ctx: Ctx) -> None:
     head, funcs = CRONRACE.split("def cron_tick_with_last___KIND__", 1)
     funcs = "def cron_tick_with_last___KIND__" + funcs
     rsrc, rconds = head, []
+    ffind = "def finding_first_tick___KIND__" + funcs.split("def finding_first_tick___KIND__")[1]
+    fsplit = funcs.split("def finding_first_tick___KIND__")[0]
     for kind, name in ((0, "mem"), (1, "sqlite")):
-        rsrc += funcs.replace("__KIND__", str(kind)).replace("__TOL__", tol)
+        for fst in (0, 1):
+            rsrc += fsplit.replace("__KIND__", str(kind)).replace("__F__", str(fst)).replace("__TOL__", tol)
+            rconds += [Cond(f"cron_tick_with_last_{kind}_{fst}", "confirm", 900, keyfn=_key_from_replay),
+                       Cond(f"first_tick_otherwise_{kind}_{fst}", "confirm", 900, keyfn=_key_from_replay)]
+        rsrc += ffind.replace("__KIND__", str(kind)).replace("__TOL__", tol)
         rconds += [
-            Cond(f"cron_tick_with_last_{kind}", "confirm", 900, keyfn=_key_from_replay),
-            Cond(f"first_tick_otherwise_{kind}", "confirm", 900, keyfn=_key_from_replay),
             Cond(f"finding_first_tick_{kind}", "finding", 600, key=fk, keyfn=_key_from_replay,
                  what="two trigger loops evaluate a cron condition that has never fired at the same scheduled instant: store_last_cron_execution(expected=None) is unconditional, both fire")]
     ctx.ch_batch("c13cronrace", rsrc, rconds)
